@@ -252,7 +252,7 @@ def check(ctx):
     vst = class_assigns(wr).get("_VALUE_STMT_TYPES")
     names = {unparse(e) for e in vst.elts} if isinstance(vst, ast.Tuple) else set()
     ctx.ob("R3", f"{BP}:_SubprocChainRaiseWrapper", "standalone wrapping covers Expr, Assign, AugAssign and AnnAssign statements", {"ast.Expr", "ast.Assign", "ast.AugAssign", "ast.AnnAssign"} <= names, key="value-stmt-types", detail=str(sorted(names)))
-    vb = bp.func("_SubprocChainRaiseWrapper._visit_boolop")
+    vb = flat(ctx, bp.func("_SubprocChainRaiseWrapper._visit_boolop"), depth=2, skip=("_recurse", "_wrap", "_boolop_contains_subproc"))
     vcfg = CFG(vb)
     sets = [n for n in vcfg.nodes if n.kind == "stmt" and isinstance(n.ast, ast.Assign) and unparse(n.ast.targets[0]) == "self._inside_boolop" and const_value(n.ast.value) is True]
     # a reset writes False, or writes back a local that saved the flag before it was set (save/restore idiom)
